@@ -13,13 +13,15 @@ pub enum Cb {
     CloneV = 3,
     CloneS = 4,
     Closure = 5,
+    /// the destructor of a (ledgered) element
+    Drop = 6,
 }
-pub const CB_ALL: [Cb; 6] = [Cb::Hash, Cb::Eq, Cb::CloneK, Cb::CloneV, Cb::CloneS, Cb::Closure];
-pub const CB_NAMES: [&str; 6] = ["Hash", "Eq", "CloneK", "CloneV", "CloneS", "Closure"];
+pub const CB_ALL: [Cb; 7] = [Cb::Hash, Cb::Eq, Cb::CloneK, Cb::CloneV, Cb::CloneS, Cb::Closure, Cb::Drop];
+pub const CB_NAMES: [&str; 7] = ["Hash", "Eq", "CloneK", "CloneV", "CloneS", "Closure", "Drop"];
 
 thread_local! {
-    static CNT: Cell<[u64; 6]> = const { Cell::new([0; 6]) };
-    static TRIP: Cell<[u64; 6]> = const { Cell::new([0; 6]) };
+    static CNT: Cell<[u64; 7]> = const { Cell::new([0; 7]) };
+    static TRIP: Cell<[u64; 7]> = const { Cell::new([0; 7]) };
     /// logical key ids of the last hash computations (ring)
     static HLOG: Cell<[u32; 16]> = const { Cell::new([u32::MAX; 16]) };
     static HLOG_N: Cell<usize> = const { Cell::new(0) };
@@ -56,12 +58,12 @@ pub fn tick(k: Cb) {
         panic!("{}:{}", FUSE_MSG, CB_NAMES[i]);
     }
 }
-pub fn counts() -> [u64; 6] {
+pub fn counts() -> [u64; 7] {
     CNT.with(|c| c.get())
 }
 pub fn reset_counts() {
     crate::alloc::harness(|| CBLOG.with(|l| l.borrow_mut().clear()));
-    CNT.with(|c| c.set([0; 6]));
+    CNT.with(|c| c.set([0; 7]));
     HLOG_N.with(|c| c.set(0));
 }
 /// Start a new hash log (beginning of a subject call).
@@ -71,12 +73,12 @@ pub fn hlog_mark() {
 }
 /// Arm: panic on the `n`-th invocation (counted from the last `reset_counts`) of `k`.
 pub fn arm(k: Cb, n: u64) {
-    let mut t = [0u64; 6];
+    let mut t = [0u64; 7];
     t[k as usize] = n;
     TRIP.with(|x| x.set(t));
 }
 pub fn disarm() {
-    TRIP.with(|x| x.set([0; 6]));
+    TRIP.with(|x| x.set([0; 7]));
 }
 pub fn armed() -> bool {
     TRIP.with(|x| x.get().iter().any(|&v| v != 0))
